@@ -144,7 +144,7 @@ fn recover<M: Model<ColorFormat = Rgb565>>(mut d: Dsp<M>, wp: *mut World, cfg: &
     }
 }
 
-fn history_h<M: Model<ColorFormat = Rgb565>>(m: M, steps: usize, fixed_op: u8, nops: u8) {
+fn history_h<M: Model<ColorFormat = Rgb565>>(m: M, steps: usize, fixed_op: u8, nops: u8, with_recovery: bool) {
     let probe = any_probe::<M>();
     let mut world = World::new(NEVER);
     let wp: *mut World = &mut world;
@@ -175,10 +175,38 @@ fn history_h<M: Model<ColorFormat = Rgb565>>(m: M, steps: usize, fixed_op: u8, n
     let mut last_op = 0u8;
     let mut failed = false;
     while i < steps {
-        let op: u8 = if fixed_op < 255 { fixed_op } else { kani::any() };
-        kani::assume(op < nops);
+        // a symbolic choice is only ever between sleep and wake, so that symbolic execution
+        // does not have to walk through all twelve operations at every step
+        let choice: u8 = kani::any();
+        let op: u8 = if fixed_op < 255 {
+            fixed_op
+        } else if choice == 0 {
+            0
+        } else if choice == 1 {
+            1
+        } else if choice == 2 && nops > 2 {
+            2
+        } else if nops > 2 {
+            4
+        } else {
+            1
+        };
         last_op = op;
-        if step(&mut d, wp, &mut sh, op).is_err() {
+        // every call site passes a constant operation
+        let r = if fixed_op < 255 {
+            step(&mut d, wp, &mut sh, fixed_op)
+        } else if choice == 0 {
+            step(&mut d, wp, &mut sh, 0)
+        } else if choice == 1 {
+            step(&mut d, wp, &mut sh, 1)
+        } else if choice == 2 && nops > 2 {
+            step(&mut d, wp, &mut sh, 2)
+        } else if nops > 2 {
+            step(&mut d, wp, &mut sh, 4)
+        } else {
+            step(&mut d, wp, &mut sh, 1)
+        };
+        if r.is_err() {
             failed = true;
             check_state(&mut d, &sh);
             break;
@@ -187,8 +215,10 @@ fn history_h<M: Model<ColorFormat = Rgb565>>(m: M, steps: usize, fixed_op: u8, n
         i += 1;
     }
     kani::cover!(failed, "cover: an operation fails");
-    kani::cover!(!failed && sh.sleeping, "cover: fault-free history ending asleep");
-    recover(d, wp, &mut cfg, &sh, probe, if failed { last_op } else { 255 });
+    kani::cover!(!failed && (sh.sleeping || fixed_op == 1), "cover: fault-free history ending asleep (awake after wake)");
+    if with_recovery {
+        recover(d, wp, &mut cfg, &sh, probe, if failed { last_op } else { 255 });
+    }
 }
 
 macro_rules! h {
@@ -201,29 +231,31 @@ macro_rules! h {
     };
 }
 type V = VModel<Rgb565, 240, 320>;
-//@ props=C13,C12 inst="VModel<Rgb565,240,320>: optional sleep, then 3 symbolic operations over {sleep, wake}" bounds="both flag values as start state, 3 steps, symbolic failing call, all cfgs; recovery drawing checked on every cell" timeout=1800 mem=8
-h!(c13_history_v, 5, history_h(V::new(), 3, 255, 2));
+//@ props=C13,C12,C10 inst="VModel<Rgb565,240,320>: optional sleep, then 3 symbolic operations over {sleep, wake, set_pixel, set_orientation}" bounds="both flag values as start state, 3 steps, symbolic failing call, all cfgs; then recovery drawing checked on every cell" timeout=1800 mem=12
+h!(c13_history_v, 5, history_h(V::new(), 3, 255, 4, true));
+//@ props=C13,C12 tier=thorough inst="VModel<Rgb565,240,320>: optional sleep, then 5 symbolic operations over {sleep, wake}" bounds="5 steps, symbolic failing call" timeout=3000 mem=12
+h!(c13_history_v5, 7, history_h(V::new(), 5, 255, 2, false));
 //@ props=C13,C12 tier=thorough inst="ST7789 (real init): same history" bounds="same; unwind 20" timeout=3000 mem=10
-h!(c13_history_st7789, 20, history_h(mipidsi::models::ST7789, 3, 255, 2));
+h!(c13_history_st7789, 20, history_h(mipidsi::models::ST7789, 3, 255, 4, true));
 //@ props=C12,C13 inst="Display::sleep" bounds="from either flag value, symbolic failing call, then recovery; all cfgs" timeout=900 mem=6
-h!(c12_m_sleep, 5, history_h(V::new(), 1, 0, 12));
+h!(c12_m_sleep, 5, history_h(V::new(), 1, 0, 12, true));
 //@ props=C12,C13 inst="Display::wake" bounds="same" timeout=900 mem=6
-h!(c12_m_wake, 5, history_h(V::new(), 1, 1, 12));
+h!(c12_m_wake, 5, history_h(V::new(), 1, 1, 12, true));
 //@ props=C12,C13 inst="Display::set_pixel" bounds="same" timeout=900 mem=6
-h!(c12_m_set_pixel, 5, history_h(V::new(), 1, 2, 12));
+h!(c12_m_set_pixel, 5, history_h(V::new(), 1, 2, 12, true));
 //@ props=C12,C13 inst="DrawTarget::fill_solid" bounds="same" timeout=900 mem=6
-h!(c12_m_fill_solid, 5, history_h(V::new(), 1, 3, 12));
+h!(c12_m_fill_solid, 5, history_h(V::new(), 1, 3, 12, true));
 //@ props=C12,C13,C10 inst="Display::set_orientation" bounds="same; recovery = a later successful set_orientation, then drawing" timeout=900 mem=6
-h!(c12_m_set_orientation, 5, history_h(V::new(), 1, 4, 12));
+h!(c12_m_set_orientation, 5, history_h(V::new(), 1, 4, 12, true));
 //@ props=C12,C13 inst="Display::set_vertical_scroll_region + set_vertical_scroll_offset" bounds="same" timeout=900 mem=6
-h!(c12_m_scroll, 5, history_h(V::new(), 1, 5, 12));
+h!(c12_m_scroll, 5, history_h(V::new(), 1, 5, 12, true));
 //@ props=C12,C13 inst="Display::set_tearing_effect" bounds="same" timeout=900 mem=6
-h!(c12_m_tearing, 5, history_h(V::new(), 1, 6, 12));
+h!(c12_m_tearing, 5, history_h(V::new(), 1, 6, 12, true));
 //@ props=C12,C13 inst="Display::set_pixels (2 colours)" bounds="same" timeout=900 mem=6
-h!(c12_m_set_pixels, 5, history_h(V::new(), 1, 7, 12));
+h!(c12_m_set_pixels, 5, history_h(V::new(), 1, 7, 12, true));
 //@ props=C12,C13 inst="DrawTarget::fill_contiguous (2x1 rectangle, <= 2 colours)" bounds="same" timeout=1200 mem=8
-h!(c12_m_fill_contiguous, 6, history_h(V::new(), 1, 8, 12));
-//@ props=C12,C13 inst="DrawTarget::draw_iter (<= 1 pixel, any i32 coordinates)" bounds="same" timeout=1800 mem=10
-h!(c12_m_draw_iter, 5, history_h(V::new(), 1, 9, 12));
+h!(c12_m_fill_contiguous, 6, history_h(V::new(), 1, 8, 12, true));
+//@ props=C12,C13 cfg=smallcap inst="DrawTarget::draw_iter (<= 1 pixel, any i32 coordinates; capacities 4/8 under hook H4)" bounds="same" timeout=1800 mem=10
+h!(c12_m_draw_iter, 5, history_h(V::new(), 1, 9, 12, true));
 //@ props=C12,C13 inst="DrawTarget::clear" bounds="same" timeout=900 mem=6
-h!(c12_m_clear, 5, history_h(V::new(), 1, 10, 12));
+h!(c12_m_clear, 5, history_h(V::new(), 1, 10, 12, true));
